@@ -45,6 +45,9 @@ CORPUS = {
     "inc.q": [" NOP", " INCLUDE shared.asm", "VALUE FCB 1"],
     "inc.p": ["A NOP", "B NOP", "C BRA C", " INCLUDE shared.asm", "VALUE FCB 2", " LDA 5,X"],
     "inc.r": ["TABLE EQU 5", " INCLUDE other.asm", " INCLUDE shared.asm", "VALUE EQU $1234"],
+    "rej.inc.inner": [" NOP", " INCLUDE outer2.asm"],
+    "rej.inc.selfnested": [" INCLUDE loop1.asm"],
+    "inc.after": ["K NOP", " INCLUDE outer3.asm", " BRA K"],
     "rej.mnemonic": [" FOO 1"],
     "rej.parse": ["failure_to_parse"],
     "rej.operand": [" LDA #"],
@@ -64,7 +67,9 @@ CORPUS = {
     "rej.end": [" END NOWHERE"],
     "rej.fit": [" LDA <$1234"],
 }
-INCLUDED = {"shared.asm": ["GETVAL LDA VALUE", " LDB VALUE+1", " LEAX VALUE,PCR", " RTS"], "other.asm": [" LDA TABLE,X", " LDA 5,X", "OTHER RTS"]}
+INCLUDED = {"shared.asm": ["GETVAL LDA VALUE", " LDB VALUE+1", " LEAX VALUE,PCR", " RTS"], "other.asm": [" LDA TABLE,X", " LDA 5,X", "OTHER RTS"],
+            "outer2.asm": [" NOP", " INCLUDE bad.asm"], "bad.asm": ["GOOD NOP", " FOO 1"], "loop1.asm": [" INCLUDE loop2.asm"],
+            "loop2.asm": [" INCLUDE loop1.asm"], "outer3.asm": [" INCLUDE shared2.asm", " NOP"], "shared2.asm": [" LDA #1"]}
 NAMES = sorted(CORPUS)
 HASHSEEDS = ["0", "1", "4242"]
 
@@ -72,11 +77,19 @@ HASHSEEDS = ["0", "1", "4242"]
 def observe(lines):
     """everything a user can observe from one assembly, as a JSON-able value"""
     if any("INCLUDE" in ln for ln in lines):
-        with common.scratch_dir():
+        # one stable directory per process: the same absolute include paths recur across assemblies of a history
+        d = os.path.join(common._scratch_parent(), "c17inc")
+        if not os.path.isdir(d):
+            os.mkdir(d)
             for fn, content in INCLUDED.items():
-                with open(fn, "w") as f:
+                with open(os.path.join(d, fn), "w") as f:
                     f.write("".join(x + "\n" for x in content))
+        cwd = os.getcwd()
+        os.chdir(d)
+        try:
             out = common.assemble([ln + "\n" for ln in lines], budget=20, raw=True)
+        finally:
+            os.chdir(cwd)
     else:
         out = common.assemble([ln + "\n" for ln in lines], budget=20, raw=True)
     if out["kind"] == "OK":
